@@ -256,6 +256,12 @@ func propC03(c *Ctx) {
 
 	// ---- R3.4 ---------------------------------------------------------
 	c.Rule("R3.4", "every successful return of the block/header fetchers carries validate()'s verdict; validate checks emptiness, first/last number and parent linkage of every adjacent pair", 6)
+	checkFetchersValidate(c, "R3.4")
+}
+
+// checkFetchersValidate (R3.4 = R7.7).
+func checkFetchersValidate(c *Ctx, rule string) {
+	w := c.W
 	validate := w.Fn("jrpc2", "validate")
 	for _, name := range []string{"(*Client).blocks", "(*Client).headers"} {
 		fn := w.Fn("jrpc2", name)
@@ -281,16 +287,16 @@ func propC03(c *Ctx) {
 			call, ok := vals[1].(*ssa.Call)
 			good := ok && staticCallee(call) == validate && len(call.Call.Args) == 4 &&
 				sameVar(call.Call.Args[3], vals[0]) && call.Call.Args[1] == pStart && call.Call.Args[2] == pLimit
-			c.Check("R3.4", fmt.Sprintf("%s/return#%d", fnName(fn), n), instrPos(r), good, "a non-nil block slice is returned together with validate(caller, start, limit, that slice)")
+			c.Check(rule, fmt.Sprintf("%s/return#%d", fnName(fn), n), instrPos(r), good, "a non-nil block slice is returned together with validate(caller, start, limit, that slice)")
 		}
 		if n == 0 {
-			c.Violation("R3.4", fnName(fn)+"/returns", fn.Pos(), "no block-returning return found")
+			c.Violation(rule, fnName(fn)+"/returns", fn.Pos(), "no block-returning return found")
 		}
 	}
-	checkValidate(c, validate)
+	checkValidate(c, validate, rule)
 }
 
-func checkValidate(c *Ctx, v *ssa.Function) {
+func checkValidate(c *Ctx, v *ssa.Function, rule string) {
 	w := c.W
 	var blocks, pStart, pLimit *ssa.Parameter
 	for _, p := range v.Params {
@@ -338,7 +344,7 @@ func checkValidate(c *Ctx, v *ssa.Function) {
 			emptyEdges = append(emptyEdges, t...)
 		}
 	})
-	c.Check("R3.4", "validate/empty", v.Pos(), nonNilRet(emptyEdges), "an empty result is an error")
+	c.Check(rule, "validate/empty", v.Pos(), nonNilRet(emptyEdges), "an empty result is an error")
 	// first / last
 	numOfElem := func(x ssa.Value, last bool) bool {
 		recv, ok := valueMethodArg(x, "eth", "Block", "Num")
@@ -401,8 +407,8 @@ func checkValidate(c *Ctx, v *ssa.Function) {
 			lastNe = append(lastNe, ne...)
 		}
 	})
-	c.Check("R3.4", "validate/first==start", v.Pos(), nonNilRet(firstNe), "first block number != start is an error")
-	c.Check("R3.4", "validate/last==start+limit-1", v.Pos(), nonNilRet(lastNe), "last block number != start+limit-1 is an error")
+	c.Check(rule, "validate/first==start", v.Pos(), nonNilRet(firstNe), "first block number != start is an error")
+	c.Check(rule, "validate/last==start+limit-1", v.Pos(), nonNilRet(lastNe), "last block number != start+limit-1 is an error")
 	// linkage: bytes.Equal(blocks[i].Header.Parent, blocks[i-1].Hash()) false ⇒ error, in a loop i = 1..len
 	fHeader, fParent := w.Field("eth", "Block", "Header"), w.Field("eth", "Header", "Parent")
 	var linkFalse []Edge
@@ -458,7 +464,7 @@ func checkValidate(c *Ctx, v *ssa.Function) {
 			linkFalse = append(linkFalse, f...)
 		}
 	}
-	c.Check("R3.4", "validate/linkage-every-adjacent-pair", v.Pos(), linkOK && nonNilRet(linkFalse),
+	c.Check(rule, "validate/linkage-every-adjacent-pair", v.Pos(), linkOK && nonNilRet(linkFalse),
 		"for i = 1 .. len(blocks)-1: blocks[i].Header.Parent != blocks[i-1].Hash() is an error")
 	// success return only after all checks: `return nil` not reachable when any check fails is implied by nonNilRet;
 	// additionally the nil return must be dominated by the emptiness and first/last tests
@@ -481,7 +487,7 @@ func checkValidate(c *Ctx, v *ssa.Function) {
 					okDom = false
 				}
 			}
-			c.Check("R3.4", "validate/return-nil-after-all-tests", instrPos(r), okDom, "the success return is dominated by the emptiness, first-number and last-number tests")
+			c.Check(rule, "validate/return-nil-after-all-tests", instrPos(r), okDom, "the success return is dominated by the emptiness, first-number and last-number tests")
 		}
 	}
 }
